@@ -6,6 +6,7 @@ import (
 	"fmt"
 	"math/rand"
 	"os"
+	"path/filepath"
 	"sort"
 	"strings"
 	"sync"
@@ -72,6 +73,101 @@ type subRec struct {
 }
 
 // C32 subscribers get every matching committed write exactly once, in commit order.
+
+// c32ReusedBuffer: a writer that re-uses its value buffer as soon as Commit has returned (allowed:
+// "users must not modify key and val until the end of the transaction"). The subscriber must still
+// receive the value that was committed.
+func c32ReusedBuffer(c *core.Ctx, work string, idx int) {
+	dir := filepath.Join(work, fmt.Sprintf("reuse%d", idx))
+	_ = os.MkdirAll(dir, 0o755)
+	defer os.RemoveAll(dir)
+	r := c.Rand(fmt.Sprintf("c32-reuse-%d", idx))
+	ov := hist.SmallOptions(dir, []int{0, 1, 6}[idx%3], r)
+	db, err := badger.Open(ov.Opt)
+	if err != nil {
+		c.Inconclusive("open: " + err.Error())
+		return
+	}
+	defer db.Close()
+	ctx, cancel := context.WithCancel(context.Background())
+	type got struct {
+		ver uint64
+		sum string
+	}
+	var mu sync.Mutex
+	recv := map[string][]got{}
+	done := make(chan struct{})
+	go func() {
+		defer close(done)
+		_ = db.Subscribe(ctx, func(kvs *badger.KVList) error {
+			mu.Lock()
+			defer mu.Unlock()
+			for _, kv := range kvs.Kv {
+				recv[string(kv.Key)] = append(recv[string(kv.Key)], got{kv.Version, fmt.Sprintf("len=%d sum=%x", len(kv.Value), hist.Sum8(kv.Value))})
+			}
+			return nil
+		}, []pb.Match{{Prefix: []byte("reuse-")}})
+	}()
+	for i := 0; i < 2000 && db.VerifSubscriberCount() == 0; i++ {
+		time.Sleep(time.Millisecond)
+	}
+	n := 40 + r.Intn(60)
+	size := []int{16, 200, 3000}[idx%3]
+	buf := make([]byte, size)
+	want := map[string]string{}
+	for i := 0; i < n; i++ {
+		for j := range buf {
+			buf[j] = byte('A' + i%26)
+		}
+		k := fmt.Sprintf("reuse-%03d", i)
+		want[k] = fmt.Sprintf("len=%d sum=%x", len(buf), hist.Sum8(buf))
+		if err := db.Update(func(txn *badger.Txn) error { return txn.Set([]byte(k), buf) }); err != nil {
+			c.Inconclusive("commit: " + err.Error())
+			cancel()
+			<-done
+			return
+		}
+		// the transaction has ended: the buffer is the caller's again
+		for j := range buf {
+			buf[j] = '#'
+		}
+	}
+	deadline := time.Now().Add(10 * time.Second)
+	for time.Now().Before(deadline) {
+		mu.Lock()
+		l := len(recv)
+		mu.Unlock()
+		if l >= n {
+			break
+		}
+		time.Sleep(5 * time.Millisecond)
+	}
+	cancel()
+	<-done
+	c.Eval(1)
+	mu.Lock()
+	defer mu.Unlock()
+	bad, first := 0, ""
+	for k, w := range want {
+		g := recv[k]
+		if len(g) != 1 {
+			c.Violation("C32|reused-buffer|count", fmt.Sprintf("key %s delivered %d times", k, len(g)), ov.Name)
+			continue
+		}
+		c.Count("sub.reused_buffer_kvs_checked", 1)
+		if g[0].sum != w {
+			bad++
+			if first == "" || k < first {
+				first = k
+			}
+		}
+	}
+	if bad > 0 {
+		c.Violation("C32|reused-buffer|content", fmt.Sprintf("%d of %d sequential commits whose value buffer the writer re-used after Commit returned were delivered with the buffer's later contents, not the committed value (first: %s, value size %d)", bad, n, first, size), ov.Name)
+	}
+	c.Distinct(fmt.Sprintf("reused-buffer|%s|size=%d", ov.Name, size))
+}
+
 func C32(c *core.Ctx) {
 	c.Rule("2-6 subscribers, each with 1-3 patterns (hostile prefixes of length 0-5 with 0-2 ignore ranges, also beyond the key length), are registered (confirmed through " +
 		"the subscriber count) before 6 committers write hostile keys shorter and longer than the patterns (sets with meta/expiry and deletes); commit timestamps come from marker " +
@@ -322,6 +418,11 @@ func C32(c *core.Ctx) {
 		}
 		_ = res.DB.Close()
 		_ = os.RemoveAll(res.Dir)
+	}
+	c.Rule("re-used buffers: one writer commits 40-100 sequential transactions from one value buffer (16 B / 200 B / 3000 B) which it overwrites as soon as Update has returned; " +
+		"a subscriber on the prefix must receive, for every key, exactly one KV whose value digest is that of the committed value")
+	for i := 0; i < c.Pick(3, 12); i++ {
+		c32ReusedBuffer(c, work, i)
 	}
 	if c.Counter("sub.kvs_checked") == 0 {
 		c.Inconclusive("nothing was delivered")
